@@ -39,12 +39,12 @@ CHECKS = {
         text="Partial: for derive-generated sync blocks chunk-independence holds by construction, checked on the generated MIR "
              "of every in-crate user and a generated family (lock-step iteration from 0, take(n), one process call per sample, "
              "no state written by work()). For hand-written blocks the bounded-copy rule and rate consistency (consume(a) with "
-             "produce(a/c) needs a multiple of c), written-before-committed, counted consume, moved-out state restored, advanced copies stored back, fills committed, no per-call limit/discard of state grown per sample, no bulk copy of a partially consumed window into carried state, output commitments are paid for by an input advance or a state change, output sized by an input window consumes from it, what is written through slice() is committed, a window processed in frames commits whole frames only, no kernel branches on how much lies behind the samples it was asked about, and a copy stage consumes what it commits. Other carried-state arithmetic of hand-written blocks is not decided.",
+             "produce(a/c) needs a multiple of c), written-before-committed, counted consume, moved-out state restored, advanced copies stored back, fills committed, no per-call limit/discard of state grown per sample, no bulk copy of a partially consumed window into carried state, output commitments are paid for by an input advance or a state change, output sized by an input window consumes from it, what is written through slice() is committed, a window processed in frames commits whole frames only, no kernel branches on how much lies behind the samples it was asked about, and a copy stage consumes what it commits. Other carried-state arithmetic of hand-written blocks is not decided. An owed-sample counter clamped to a window is reduced by the clamped amount; a byte source's aligned-read shortcut is taken only with no bytes pending (= C14.R4).",
         design="§4 C08", technique="structural rules on macro-generated MIR over a generated program family"),
     "C12": dict(
         text="Partial: the stream stores only tags of committed samples and consume(0) removes none (central contract), and on "
              "the generated sync path input tags are selected by == loop index, re-emitted at that index and handed to every "
-             "produce(), for every arity of the generated family; hand-written rate changers divide forwarded positions by the same ratio on every path to the commit, and a forwarded tag list comes from the read_buf() whose window is consumed with it; the stream-side tag rules of C02 (key reduction, bounded removal, atomic commit, unambiguous selection, no early exit from the tag loop) run here too. Other index arithmetic of hand-written blocks is not decided.",
+             "produce(), for every arity of the generated family; hand-written rate changers divide forwarded positions by the same ratio on every path to the commit, and a forwarded tag list comes from the read_buf() whose window is consumed with it; the stream-side tag rules of C02 (key reduction, bounded removal, atomic commit, unambiguous selection, no early exit from the tag loop) run here too. Other index arithmetic of hand-written blocks is not decided. Every alternative of the tags a process_sync_tags hook returns is built from its tags parameter.",
         design="§4 C12", technique="guard dominance + structural rules on macro-generated MIR"),
     "C19": dict(
         text="Programs quantified over: a generated family (sync, sync_tag x 1..3 inputs x 1..3 outputs x plain/default+into) and "
@@ -90,7 +90,7 @@ CHECKS = {
              "buffered-amount read on every path to an end-of-stream verdict (or happens under the still-held data "
              "lock); every non-false verdict is equivalent to / guarded by handle-count==1; all condvar waits are "
              "timed with constant non-zero timeouts; every derive-generated eof() is the conjunction over all inputs (path-sensitive); the multithreaded runner acts on wait()'s verdict only; amounts behind verdicts derive from the fill counter; the writer-side verdict depends on the requested amount too. "
-             "This decides the check-then-act ordering the property describes, for all schedules, not the latency.",
+             "This decides the check-then-act ordering the property describes, for all schedules, not the latency. The multithreaded runner asks StreamWait::wait about the block's need unchanged.",
         design="§4 C04", technique="MIR path-ordering + dominance analysis (rustc_private driver + Python rules)"),
     "C05": dict(
         text="Static classification of every exit of the per-block thread loop of the multithreaded runner by "
